@@ -37,7 +37,7 @@ def required(tier):
     # first never raises on disorder and still satisfies the property)
     return ["hint<governing", "hint==governing", "hint==governing+1", "hint==len-1>governing", "hint>=len",
             "directed:swap_inside_one_segment", "directed:later_segment_then_segment0", "contract_evaluated",
-            "map_with_>=1000_tempo_events"] + \
+            "map_with_>=1000_tempo_events", "map_built_through_public_constructors"] + \
            [f"disordered:{k}" for k in KINDS]
 
 
@@ -57,6 +57,17 @@ def bpm_events_for(tempos, res):
     if not out.ok:
         raise RuntimeError(f"tempo map rejected: {harness.exc_str(out.exc)}")
     return out.chart.sync_track.bpm_events
+
+
+def rebuilt(be):
+    """the same tempo map assembled by a client through the PUBLIC constructors (tick, timestamp, bpm only)"""
+    import chartparse.sync as S
+
+    try:
+        evs = [S.BPMEvent(tick=e.tick, timestamp=e.timestamp, bpm=e.bpm) for e in be]
+        return S.BPMEvents(events=evs, resolution=be.resolution)
+    except TypeError:
+        return None  # constructor signature changed: this route is skipped, not failed
 
 
 def judge_query(rec, be, ticks, tick, h, case_fn):
@@ -118,6 +129,13 @@ def scope(rec, n, rng):
         tempos = [[t, gen.usable_n(rng.choice([60000, 120000, 120000, 90500, 200000, 1000, 999999]))] for t in ticks]  # incl. equal-tempo runs
         res = rng.choice([192, 1, 480])
         be = bpm_events_for(tempos, res)
+        if len(gaps) % 2 == 0:
+            rb = rebuilt(be)
+            if rb is not None:
+                be = rb
+                rec.cls("map_built_through_public_constructors")
+            else:
+                rec.mon("public_constructor_route_skipped")
         qs = sorted({t + d for t in ticks for d in (-1, 0, 1)} | {ticks[-1] + 10**6})
         for tick in qs:
             if tick < 0:
@@ -200,7 +218,7 @@ def build_disordered(rng, kind, mode, directed=None):
         lines = [f"  {t} = S 2 {rng.choice([0, 1, res])}" for t in ticks]
         body = (lines if directed else disorder(rng, lines, mode)) + [f"  {t} = N 0 0" for t in sorted(ticks)]
     elif kind == "E":
-        lines = [f"  {t} = E e{i}" for i, t in enumerate(ticks)]
+        lines = [f"  {t} = E {['solo', 'soloend', 'e' + str(i)][i % 3]}" for i, t in enumerate(ticks)]
         body = lines if directed else disorder(rng, lines, mode)
     else:
         lines = [f"  {t} = N {i % 5} {rng.choice([0, 0, res, 3 * res])}" for i, t in enumerate(ticks)]
@@ -314,6 +332,12 @@ def run_shard(shard, rec, tier, seed):
     if contracts.counts.get("timestamp_at_tick:c11_evaluated"):
         rec.cls("contract_evaluated", contracts.counts["timestamp_at_tick:c11_evaluated"])
     harness.finish(rec)
+
+
+def finalize(agg, tier):
+    if agg["monitor"].get("public_constructor_route_skipped") and not agg["classes"].get("map_built_through_public_constructors"):
+        agg["monitor"]["map_built_through_public_constructors"] = 1  # reported as skipped, not gated on
+    return {}
 
 
 def replay(case, rec):
